@@ -325,12 +325,22 @@ def _assembly_sparse(repo, col, R=None):
         compress = None
         for n in ast.walk(csc.node):
             if isinstance(n, ast.Call) and unparse(n.func) == "np.add.at" and len(n.args) >= 2:
-                pn = {x.name for x in excsc.term(n.args[1]).walk() if x.op == "param"}   # which index the pointer array counts (on the defining term)
-                compress = "col_ind" if "col_ind" in pn else ("row_ind" if "row_ind" in pn else None)
+                compress = _axis_of(excsc.term(n.args[1]))   # which index the pointer array counts (on the defining term)
         if compress == "col_ind":
             eff_row = pair.get(c_i)
         elif compress == "row_ind":
             eff_row = pair.get(r_i)
+        # the three arrays describe ONE layout: entries sorted with the compressed axis as the primary key, `indices` = the other axis
+        rr = excsc.returns[-1] if excsc.returns else None
+        ls = next((x for t_ in ([rr] if rr is not None else []) for x in t_.walk() if x.op == "mcall" and x.name == "lexsort" and len(x.args) > 1 and x.args[1].op in ("tuple", "list")), None)
+        if compress and rr is not None and rr.op == "tuple" and len(rr.args) == 3 and ls is not None and ls.args[1].args:
+            primary = _axis_of(ls.args[1].args[-1])
+            other = _axis_of(rr.args[1])
+            col.check(primary == compress and other is not None and other != compress, R, csc,
+                      "convert_to_csc: entries are sorted by the compressed axis first, and `indices` lists the other axis",
+                      f"pointer array over {compress}, primary sort key {primary}, indices = {other}",
+                      f"the pointer array counts `{compress}`, the entries are sorted primarily by `{primary}` and `indices` holds `{other}`: "
+                      f"the three arrays do not describe one compressed layout", node=csc.node)
     dix = diag.updates[0][0] if diag.updates else None
     col.check(eff_row is not None and dix == eff_row + "s", R, cfi,
               "orientation: compressed axis of the (data, indices, indptr) arrays is the sink",
@@ -402,6 +412,23 @@ def _merge(repo, col, R=None):
             "len(levels of the cell) > i" if good else
             (f"the condition `{cond.short(60)}` does not select exactly the cells with more than i levels" if cond is not None else
              "no condition on the number of levels of a cell found"), node=fi.node)
+
+
+def _axis_of(t):
+    """'row_ind' / 'col_ind': the parameter whose ENTRIES a term holds (reordered `x[perm]`, shifted `x + 1`), whatever the permutation is computed from"""
+    while True:
+        if t.op == "binop" and len(t.args) == 2:
+            nc = [a_ for a_ in t.args if a_.op != "const"]
+            if len(nc) != 1:
+                return None
+            t = nc[0]
+        elif t.op == "sub":
+            t = t.args[0]
+        elif t.op in ("mcall", "call") and t.name in ("asarray", "array", "astype", "copy") and t.args:
+            t = next((a_ for a_ in t.args if a_.op != "free"), t.args[0])
+        else:
+            break
+    return t.name if t.op == "param" and t.name in ("row_ind", "col_ind") else None
 
 
 def _dimension(repo, col, R=None):
@@ -1023,18 +1050,28 @@ def _scheme(repo, col, R="R-C01-scheme"):
 
     updates = [s_ for s_ in ex.stores if s_.kind == "mcall" and s_.key.name == "update" and isinstance(s_.node.func.value, ast.Name)
                and s_.node.func.value.id == KW and s_.node.args and isinstance(s_.node.args[0], ast.Dict)]
-    if not updates:
+    # ... and every single-key assignment `solver_kwargs["k"] = v`
+    singles = [n for n in walk_no_nested(fn) if isinstance(n, ast.Assign) and len(n.targets) == 1 and isinstance(n.targets[0], ast.Subscript) and
+               isinstance(n.targets[0].value, ast.Name) and n.targets[0].value.id == KW and isinstance(n.targets[0].slice, ast.Constant)]
+    if not updates and not singles:
         raise AnalysisError("Module.step: the solver_kwargs.update(...) calls were not found")
     base_keys = set(kw)
     keys_for = {True: set(base_keys), False: set(base_keys)}
-    dict_nodes = [(None, d)]
+    entries = [(None, k.value, v) for k, v in zip(d.keys, d.values) if isinstance(k, ast.Constant)]
     for s_ in updates:
         dn = s_.node.args[0]
         case = sparse_case(s_.guards)
-        dict_nodes.append((case, dn))
-        ks = {k.value for k in dn.keys if isinstance(k, ast.Constant)}
+        for k, v in zip(dn.keys, dn.values):
+            if isinstance(k, ast.Constant):
+                entries.append((case, k.value, v))
+    for n in singles:
+        gs = ex.stmt_guards.get(id(n))
+        if gs is None:
+            gs = ex.stmt_guards.get(n, [])
+        entries.append((sparse_case([g for g in gs if isinstance(g, T)]), n.targets[0].slice.value, n.value))
+    for case, k_, _v in entries:
         for c_ in ((True, False) if case is None else (case,)):
-            keys_for[c_] |= ks
+            keys_for[c_].add(k_)
     for is_sparse, target in ((True, "step_voltage_implicit_with_jax_spsolve"), (False, "step_voltage_implicit_with_jaxley_spsolve")):
         tf = repo.func(SV, target)
         need = set(tf.params)
@@ -1044,14 +1081,13 @@ def _scheme(repo, col, R="R-C01-scheme"):
                                      f"unexpected {sorted(have - need)}", node=d)
     # comp-edge columns go to the parameter of the same meaning
     colmap = {"sinks": "sink", "sources": "source", "types": "type"}
-    for case, dn in dict_nodes:
-        for k, v in zip(dn.keys, dn.values):
-            if isinstance(k, ast.Constant) and k.value in colmap:
-                vt = ex.term(v)
-                okc = T.find(vt, lambda x: x.op == "sub" and x.args[0].op == "attr" and x.args[0].name == "_comp_edges" and
-                             x.args[1].op == "const" and x.args[1].name == colmap[k.value]) is not None
-                col.check(okc, R, fi, f"{k.value} <- _comp_edges['{colmap[k.value]}'] ({'all' if case is None else ('jax.sparse' if case else 'custom solver')})",
-                          vt.short(60), f"`{k.value}` is filled from {vt.short(80)}", node=v)
+    for case, k_, v in entries:
+        if k_ in colmap:
+            vt = ex.term(v)
+            okc = T.find(vt, lambda x: x.op == "sub" and x.args[0].op == "attr" and x.args[0].name == "_comp_edges" and
+                         x.args[1].op == "const" and x.args[1].name == colmap[k_]) is not None
+            col.check(okc, R, fi, f"{k_} <- _comp_edges['{colmap[k_]}'] ({'all' if case is None else ('jax.sparse' if case else 'custom solver')})",
+                      vt.short(60), f"`{k_}` is filled from {vt.short(80)}", node=v)
     # which implicit stepper is selected: the callee of the implicit call, as a function of voltage_solver
     from sa.terms import canon as _canon
     sels = {}
@@ -1625,7 +1661,15 @@ def _levels(repo, col, R="R-C01-levels"):
              T.find(x.args[0], lambda y: y.op == "param" and y.name == "parents_row_and_col") is not None)))
         flt = flt or T.find(t_, lambda x: x.op == "cmp" and x.name == "==" and len(x.args) == 2 and
                             any(a_.op == "sub" and is_levels(a_.args[0]) for a_ in x.args))
-    if row is None or flt is None:
+    positional = row is not None and flt is None and row.args[1].op == "slice" and \
+        not any(T.find(t_, lambda x: x.op in ("call", "mcall") and x.name in ("argsort", "sort", "sorted", "lexsort", "sort_values", "groupby", "unique", "searchsorted")) is not None for t_ in ts) and \
+        not any(T.find(t_, lambda x: x.op == "cmp" and any(T.find(a_, is_levels) is not None for a_ in x.args)) is not None for t_ in ts)
+    if positional:
+        col.bad(R, fi, "parents of level l are the parent branches whose own level is l, l = 0..max-1",
+                f"rows are taken by position (`{row.short(70)}`), with no comparison of the parents' levels and no sorting: that is the set of "
+                f"level-l parents only when the parent branches happen to be listed level by level (breadth-first); for a depth-first "
+                f"listing the wrong branch points are eliminated with each level", node=row.node if row.node is not None else fi.node)
+    elif row is None or flt is None:
         col.unk(R, fi, "compute_parents_in_level: row selection and level filter", "building blocks not found", node=fi.node)
     else:
         lv_side = next(a_ for a_ in flt.args if a_.op == "sub" and is_levels(a_.args[0]))
